@@ -42,10 +42,49 @@ def eff_seed(seed):
     return seed % 8
 
 
+# hand-made histories (outside the clean subset on purpose): a field is added
+# nullable in one version and made NOT NULL with an initial value in the next,
+# so that a direct upgrade rolls the ChangeField into the AddField.  Truthy
+# and falsy initial values.
+CORE = [('Integer', 0), ('Integer', 5), ('Char', ''), ('Char', 'x'),
+        ('Boolean', False), ('Boolean', True)]
+
+
+def core_history(i):
+    from .. import edits as E
+    kind, initial = CORE[i]
+    fdef = {'kind': kind, 'null': True}
+    if kind == 'Char':
+        fdef['max_length'] = 20
+    steps = [
+        [{'op': 'add_field', 'app': 'app1', 'model': 'A', 'name': 'g1',
+          'fdef': fdef}],
+        [{'op': 'change_field', 'app': 'app1', 'model': 'A', 'name': 'g1',
+          'attrs': {'null': False}, 'initial': initial},
+         {'op': 'add_field', 'app': 'app1', 'model': 'A', 'name': 'g2',
+          'fdef': {'kind': 'Integer', 'null': True}}],
+    ]
+    h = histories.History()
+    cur = {'app1': {'A': {'fields': [['v', {'kind': 'Integer'}]],
+                          'meta': {}}}}
+    h.specs.append(cur)
+    for edits in steps:
+        texts = []
+        for e in edits:
+            texts.append(str(E.to_mutation(cur, e)))
+            cur = E.apply_edit(cur, e)
+        h.specs.append(cur)
+        h.steps.append(edits)
+        h.texts.append({'app1': texts})
+    return h
+
+
 def plan(tier, seed):
     es = eff_seed(seed)
-    return [{'mode': 'history', 'seed': es, 'i': i, 'tier': tier}
-            for i in range(SIZES[tier])]
+    return [{'mode': 'core', 'seed': 0, 'i': i, 'tier': 'thorough'}
+            for i in range(len(CORE))] + \
+        [{'mode': 'history', 'seed': es, 'i': i, 'tier': tier}
+         for i in range(SIZES[tier])]
 
 
 def worker_setup():
@@ -83,7 +122,11 @@ def run_case(desc):
     apps = ('app1', 'app2') if two else ('app1',)
     nmax = 3 if desc.get('tier') == 'quick' else 4
     n = rng.randint(2, nmax)
-    h = histories.gen_history(rng, n, apps=apps)
+    if desc.get('mode') == 'core':
+        apps, n = ('app1',), 2
+        h = core_history(desc['i'])
+    else:
+        h = histories.gen_history(rng, n, apps=apps)
     proj = projlab.Project()
     items, stats = [], {'histories': 1, 'steps': 0}
     try:
